@@ -355,7 +355,83 @@ Lemma J_closew s o w : J s o -> J (do_closew s w) o.
 Proof.
   intros Jo. unfold do_closew. destruct (nth_error (writers s) w) as [wr|] eqn:Hw; [|exact Jo].
   rewrite <- (set_dir_same s) at 1. eapply J_upd_writer; eauto.
-  - rewrite set_dir_same. pose proof (j_w _ _ Jo _ _ Hw) as Hok.
-    eapply writer_ok_frame with (s := s) (o := o); auto. 
-    destruct Hok as (A & B & C). split; [exact A|]. split; [exact B|exact C].
+  rewrite set_dir_same. pose proof (j_w _ _ Jo _ _ Hw) as Hok.
+  assert (E : wext (writers s) (R.upd (writers s) w (wr_close wr))) by (eapply wext_upd; eauto).
+  change (writer_ok (set_w s w (wr_close wr)) o w wr).
+  eapply writer_ok_frame; [| | | |exact Hok]; auto.
+  intros k v. apply committed_ext. exact E.
+Qed.
+
+Lemma nth_of_nth_error {A} (l : list A) i x d : nth_error l i = Some x -> nth i l d = x.
+Proof. intros H. apply nth_error_nth. exact H. Qed.
+
+Lemma dval_some s o i : J s o -> i < length (R.ents (dc s)) -> exists b, nth_error (dval s) i = Some b.
+Proof.
+  intros Jo Hi. destruct (nth_error (dval s) i) as [b|] eqn:E; [eauto|].
+  apply nth_error_None in E. rewrite (j_dl _ _ Jo) in E. lia.
+Qed.
+
+(* what a holder of a data-cache reference sees: the value of its key, intact *)
+Lemma held_value s o h i k : J s o -> held (dc s) h i -> nth_error (keys (dc s)) i = Some k ->
+  exists b v, nth_error (dval s) i = Some b /\ bo o b = BValue i /\ nth_error (bufs s) b = Some v /\ committed s k v
+              /\ cached_bytes s i = v.
+Proof.
+  intros Jo Hh Hk. pose proof (j_dc _ _ Jo) as I.
+  destruct (dval_some s o i Jo (held_lt _ _ _ I Hh)) as [b Hb].
+  destruct (j_val _ _ Jo i k b Hk (held_unfin _ _ _ I Hh) Hb) as (P & v & Q1 & Q2).
+  exists b, v. repeat split; auto. unfold cached_bytes, buf_at.
+  rewrite (nth_of_nth_error _ _ _ 0 Hb). apply nth_of_nth_error. exact Q1.
+Qed.
+
+Lemma J_pwrite s o w : J s o -> J (do_pwrite s w) o.
+Proof.
+  intros Jo. unfold do_pwrite. destruct (nth_error (writers s) w) as [wr|] eqn:Hw; [|exact Jo].
+  destruct (w_ps wr) as [|stg h i] eqn:Hps; [exact Jo|]. destruct stg as [|stg]; [|exact Jo].
+  pose proof (j_w _ _ Jo _ _ Hw) as (Hs & Hr & Ho). unfold stage_ok in Hs. rewrite Hps in Hs.
+  destruct Hs as (S1 & S2 & S3 & S4 & S5 & _). destruct (S5 eq_refl) as [Hfile Hren].
+  destruct (held_value s o h i _ Jo S1 S4) as (b & v & Hb & Hbo & Hv & Hcm & Hcb).
+  rewrite <- (set_dir_same s) at 1. eapply J_upd_writer; eauto.
+  - simpl. intros _. auto.
+  - simpl. rewrite Hren. discriminate.
+  - rewrite set_dir_same.
+    assert (E : wext (writers s) (R.upd (writers s) w (wr_ps (wr_file wr (w_file wr ++ cached_bytes s i)) (PStage 1 h i)))).
+    { eapply wext_upd; eauto; simpl; auto. rewrite Hren. discriminate. }
+    split; [|split].
+    + unfold stage_ok. simpl. repeat split; auto; try discriminate.
+      intros _. rewrite Hfile, Hcb. simpl. eapply committed_ext; eauto.
+    + simpl. rewrite Hren. discriminate.
+    + simpl. rewrite S3. discriminate.
+Qed.
+
+Lemma J_pfail s o w n : J s o -> J (do_pfail s w n) o.
+Proof.
+  intros Jo. unfold do_pfail. destruct (nth_error (writers s) w) as [wr|] eqn:Hw; [|exact Jo].
+  destruct (w_ps wr) as [|stg h i] eqn:Hps; [exact Jo|]. destruct stg as [|stg]; [|exact Jo].
+  pose proof (j_w _ _ Jo _ _ Hw) as (Hs & Hr & Ho). unfold stage_ok in Hs. rewrite Hps in Hs.
+  destruct Hs as (S1 & S2 & S3 & S4 & S5 & _). destruct (S5 eq_refl) as [Hfile Hren].
+  rewrite <- (set_dir_same s) at 1. eapply J_upd_writer; eauto.
+  - simpl. intros _. auto.
+  - simpl. rewrite Hren. discriminate.
+  - rewrite set_dir_same. split; [|split].
+    + unfold stage_ok. simpl. repeat split; auto; discriminate.
+    + simpl. rewrite Hren. discriminate.
+    + simpl. rewrite S3. discriminate.
+Qed.
+
+Lemma J_prename s o w : J s o -> J (do_prename s w) o.
+Proof.
+  intros Jo. unfold do_prename. destruct (nth_error (writers s) w) as [wr|] eqn:Hw; [|exact Jo].
+  destruct (w_ps wr) as [|stg h i] eqn:Hps; [exact Jo|]. destruct stg as [|[|stg]]; try exact Jo.
+  pose proof (j_w _ _ Jo _ _ Hw) as (Hs & Hr & Ho). unfold stage_ok in Hs. rewrite Hps in Hs.
+  destruct Hs as (S1 & S2 & S3 & S4 & _ & S6). specialize (S6 eq_refl).
+  assert (E : wext (writers s) (R.upd (writers s) w (wr_ps (wr_renamed wr) (PStage 2 h i)))).
+  { eapply wext_upd; eauto; simpl; auto. }
+  eapply J_upd_writer; eauto.
+  - simpl. auto.
+  - simpl. auto.
+  - intros k w' [Hin|Hin]; [|left; exact Hin]. inv Hin. right. auto.
+  - split; [|split].
+    + unfold stage_ok. simpl. repeat split; auto; discriminate.
+    + simpl. intros _. eapply committed_ext; [|exact S6]. exact E.
+    + simpl. rewrite S3. discriminate.
 Qed.
